@@ -537,3 +537,46 @@ func diffRecords(printed, must, may []record) (missing, phantom []string) {
 	sort.Strings(phantom)
 	return
 }
+
+type socksRec struct {
+	Scan    string
+	Version int
+	IP      string
+	Port    int
+	Auth    bool
+}
+
+func parseSocksJSON(line string) (socksRec, error) {
+	var m map[string]interface{}
+	dec := json.NewDecoder(strings.NewReader(line))
+	dec.UseNumber()
+	if err := dec.Decode(&m); err != nil {
+		return socksRec{}, err
+	}
+	if dec.More() {
+		return socksRec{}, fmt.Errorf("trailing data")
+	}
+	var r socksRec
+	for k, v := range m {
+		switch k {
+		case "scan":
+			r.Scan, _ = v.(string)
+		case "version":
+			n, _ := v.(json.Number).Int64()
+			r.Version = int(n)
+		case "ip":
+			r.IP, _ = v.(string)
+		case "port":
+			n, _ := v.(json.Number).Int64()
+			r.Port = int(n)
+		case "auth":
+			r.Auth, _ = v.(bool)
+		default:
+			return r, fmt.Errorf("undocumented key %q", k)
+		}
+	}
+	if r.Scan != "socks" || r.Version != 5 {
+		return r, fmt.Errorf("scan/version fields %q/%d", r.Scan, r.Version)
+	}
+	return r, nil
+}
